@@ -69,6 +69,11 @@ class Dim:
                     return b
                 if b == NUM:
                     return a
+                # an unclassified factor (a loop index, a count) times a width keeps the width's sort
+                if a in (BITS, UNITS) and b in (UNK, ITEMS):
+                    return a
+                if b in (BITS, UNITS) and a in (UNK, ITEMS):
+                    return b
                 return UNK
             if op in (ast.Add, ast.Sub):
                 if a == NUM:
@@ -193,6 +198,28 @@ class Dim:
                     self.flag(x.value, 'itemsize is documented in bits but returns Dtype.length')
                 else:
                     self.r.ok(x.value)
+        # items are addressed from the start of the buffer: only the trailing bits may be addressed from the end
+        trailing = set()
+        for x in own_walk(f.node):
+            if isinstance(x, ast.Assign) and len(x.targets) == 1 and isinstance(x.targets[0], ast.Name) and isinstance(x.value, ast.BinOp) \
+                    and isinstance(x.value.op, ast.Mod) and self.sort(x.value.left) == BITS:
+                trailing.add(x.targets[0].id)
+        for x in own_walk(f.node):
+            sub = None
+            if isinstance(x, ast.Subscript) and (self.t(x.value) & set(FAMILY)) and isinstance(x.slice, ast.Slice):
+                sub = x
+            if sub is None:
+                continue
+            for b in (sub.slice.lower, sub.slice.upper):
+                if isinstance(b, ast.UnaryOp) and isinstance(b.op, ast.USub):
+                    inner = b.operand
+                    if isinstance(inner, ast.Name) and inner.id in trailing:
+                        self.r.ok(None)
+                    else:
+                        mutating = isinstance(sub.ctx, (ast.Store, ast.Del))
+                        if mutating or self.sort(inner) in (BITS, UNITS):
+                            self.flag(sub, "addresses the data buffer from its END by an item width; items live at i*w from the START and "
+                                           "any trailing bits sit at the end, so this touches the trailing bits instead of the item")
         # force evaluation of every arithmetic expression (reports mixed operations wherever they occur)
         for x in own_walk(f.node):
             if isinstance(x, ast.BinOp):
